@@ -183,6 +183,7 @@ type collector struct {
 	failed   bool
 	known    map[string]finding
 	inEnum     bool
+	firstKey   string
 	srcCount   map[string]int
 	srcSamples map[string]int
 }
@@ -266,6 +267,10 @@ func (r *defRunner[C]) record(col *collector, c C, st Stats, err error) (fatal s
 			}
 			return ""
 		}
+		if col.failed && v.Key != col.firstKey {
+			// shrinking must stay on the finding it started with
+			return ""
+		}
 		raw, _ := json.Marshal(c)
 		rf := replayFile{Property: r.d.ID, Key: v.Key, Error: v.Msg, Case: raw}
 		b, _ := json.MarshalIndent(rf, "", " ")
@@ -273,11 +278,14 @@ func (r *defRunner[C]) record(col *collector, c C, st Stats, err error) (fatal s
 		os.WriteFile(path, b, 0o644)
 		if !col.failed {
 			col.failed = true
+			col.firstKey = v.Key
 			col.p.Violations++
-			col.p.FirstError = v.Error()
 		}
+		col.p.FirstError = v.Error() // the last failing execution is the shrunk one
 		col.p.ReplayFile = path
-		return v.Error()
+		// the message handed to rapid must be a pure function of the case (rapid
+		// requires identical error strings when it re-runs a candidate): the key only.
+		return "violation " + v.Key
 	}
 	if col.failed {
 		return "" // shrinking phase: not counted
